@@ -12,7 +12,8 @@ LEVEL = 'model_checking'
 FUNCTIONS = ['mofun.atoms.Atoms.replicate', 'mofun.atoms.Atoms.copy', 'mofun.atoms.Atoms.translate',
              'mofun.atoms.Atoms.extend (offsets supplied)', 'mofun.atoms.Atoms.extend.find_existing_topo']
 BOUNDS = {'quick': 'N<=3 atoms, one term of each kind (end points symbolic for one kind at a time), replication '
-                   'factors with product <=6 incl. unequal ones, cell = 9 symbolic reals',
+                   'factors with product <=6 incl. unequal ones, cell = 9 symbolic reals; two terms on the same atoms; the replica edited in place afterwards; '
+                   'a failed extend elsewhere beforehand',
           'thorough': 'as quick with factors up to product 12, N<=3 and two symbolic-end-point kinds'}
 OUTSIDE = ['factors with product > 12', 'structures without a cell (replicate raises by design)',
            'bonds crossing the periodic boundary are not re-wired (documented limitation of replicate)']
